@@ -157,7 +157,7 @@ unit = {
     "desc": "parameter setters of SoPlexBase<R> (soplex.hpp): setBoolParam, setIntParam, setRealParam - the whole switch statements, every sub-object a ghost-recording stub",
     "rmode": "R = Real = double (IEEE, bit-precise); Rational = recording stub (only assignment and unary minus are used)",
     "flags": ["--bounds-check", "--pointer-check", "--signed-overflow-check"],
-    "timeout_s": 280,
+    "timeout_s": 400,
     "extracts": EXTRACTS, "constants": CONSTANTS, "conformance": CONFORMANCE,
     "trusted": [
         "build configuration of the proofs = the pinned build (/repo/_build/soplex/config.h): SOPLEX_WITH_BOOST, SOPLEX_WITH_GMP, SOPLEX_WITH_MPFR defined, SOPLEX_WITH_PAPILO and SOPLEX_WITH_RATIONALPARAM undefined; the #ifdef branches of the other configurations are not compiled",
@@ -169,6 +169,7 @@ unit = {
         "precondition (class invariant of Settings, needed for the early `value == current` return): without init the stored value of `param` is inside its range and, for enumerated parameters, one of the enumerators",
         "precondition: 0 <= param < *PARAM_COUNT (the setters assert it); SPX_MSG_* macros are empty; assert() compiled out",
     ],
+    "replay": {"cpp": "replay.cpp", "asan": False, "extra_src": ["LIB"]},
     "instances": instances,
 }
 json.dump(unit, open(os.path.join(os.path.dirname(os.path.abspath(__file__)), "unit.json"), "w"), indent=1)
